@@ -306,6 +306,17 @@ func c08Run(t *testing.T, c c08Case) (res c08Result) {
 					vfQuiesce()
 					time.Sleep(2 * time.Second)
 					vfQuiesce()
+					// a stream whose reverse half could not be opened cannot work: it has to end as a whole (the cluster then
+					// re-establishes it) instead of staying open half-registered - owned, with a delivery channel, but
+					// without acknowledgement channel and watermark replay
+					select {
+					case <-nw.done:
+					default:
+						if res.viol == "" {
+							cur := c08Snapshot(w, c08Shard(o.Side, idx))
+							res.viol = fmt.Sprintf("%s%d: the successor could not open its reverse stream (it had already terminated its predecessor); 2 s later its handler has not returned and the shard is half-registered: delivery channel=%v acknowledgement channel=%v active receiver=%v", o.Side, idx, cur.sendChan != nil, cur.ackChan != nil, cur.receiver != nil)
+						}
+					}
 					nw.ss.Kill()
 					old.ss.Kill()
 					vfQuiesce()
